@@ -12,7 +12,7 @@ MODEL_VO = sparselib.MODEL_VO
 EXHAUSTIVE = False
 RULE = ("sp.hist cases (build, then insert/overwrite/scale/transpose steps; after the build and after every step the six public "
         "fields and the four views col_index/to_triplets/to_dense/get-at-every-position are dumped and compared): "
-        "(a) every entry pattern (all 2^(r*c) subsets) of every shape r,c <= 3 in two triplet orders (three in thorough, r,c <= 3 plus 2x4/4x2) "
+        "(a) every entry pattern (all 2^(r*c) subsets) of every shape r,c <= 3 in two triplet orders (quick: the second order for a quarter of the 3x3 patterns; thorough: three orders, plus shapes 2x4/4x2) "
         "followed by transpose + insert, (b) every permutation of triplet lists with <= 4 entries (<= 5 thorough), (c) random histories of "
         "3..10 steps on shapes <= 8x8 built from triplets or raw arrays, with forced empty first/last rows and columns and the empty "
         "matrix, (d) tie-only streams: duplicate positions, out-of-range triplets, malformed raw arrays, out-of-range get/insert "
@@ -25,15 +25,21 @@ TRUSTED = ["Coq 8.16.1 kernel + vm_compute", "Rust executor /verif/harness (Rat 
 ASSUMPTIONS = ["Rust semantics of Vec/usize as modelled (checked indexing, debug-profile overflow checks)",
                "the dump is canonical in the order of entries within one column (that order is not part of any view or of well-formedness)",
                "the sampled cases are where model and code were compared; the theorems are about the model"]
-UNPROVED = ["behaviour on duplicate positions and on malformed raw arrays is outside the claim: tied (model = implementation), not specified",
-            "sp_refines_map (P2) is stated for get-level refinement of insert/scale; see coq/Props/C06.v for what is proved"]
+UNPROVED = ["behaviour on duplicate positions and on malformed raw arrays is outside the claim: tied (model = implementation), not specified "
+            "(well-formedness and termination are proved with duplicates allowed; the agreement of the views needs duplicate-freeness: "
+            "get returns the first stored duplicate, to_dense the last)",
+            "from_vecs is an echo of its arguments: no theorem beyond the model; raw-array construction is covered by tie + search",
+            "the f64 / Complex<f64> instances are tied bitwise; nothing about C06 depends on arithmetic laws"]
 
 MANIFEST = dict(
     text=("Theorems about the Gallina model of src/sparse.rs (six public CSC fields, every guard and index checked), for all shapes, "
           "all entry values and all histories: from_triplets on in-range triplets returns a well-formed matrix whose triplet list is a "
           "permutation of the input (from_triplets_wf); well-formedness is preserved by insert, scale and transpose and hence by every "
-          "finite history (wfS_history); for duplicate-free contents get, to_triplets and to_dense describe one matrix (views_agree) and "
-          "construction does not depend on the triplet order (order_independent).  The model is run against the implementation "
+          "finite history (wfS_step, wfS_history), and every history whose insertions are in range returns (history_total); for "
+          "duplicate-free contents get, to_triplets, to_dense and col_index describe one matrix (views_agree), construction does not "
+          "depend on the triplet order (order_independent), transpose keeps exactly the swapped entries (transpose_entries) and every "
+          "history refines the same history of point-update / value-map / swap operations on the abstract partial map (sp_refines_map).  "
+          "The model is run against the implementation "
           "(Rat vs Qc, exact; all public fields and all four views after every step) on every pattern of every shape <= 3x3 in several "
           "triplet orders, every permutation of small triplet lists, random histories on shapes <= 8x8 including empty rows/columns and "
           "the empty matrix, raw-array construction, and tie-only malformed/duplicate/out-of-range streams; a dictionary-of-keys "
@@ -127,6 +133,8 @@ def generate(rng, tier):
         for mask in range(1 << len(allcells)):
             cells = [p for k, p in enumerate(allcells) if (mask >> k) & 1]
             for order in orders:
+                if not thorough and order != "shuffle" and r * c == 9 and mask % 4 != 1:
+                    continue          # quick: every 3x3 pattern once, a quarter of them in a second order
                 ts = triplets_of(g, cells, 'rat', order)
                 ops = []
                 if r * c > 0:
